@@ -580,8 +580,13 @@ func Input(l *InputSharedVars, g *GlobalVarsMain, hPath *HFilePath, driConfig *C
 						if SCHLAG != g.PKT {
 							g.FRUCHT[SLFINDindex+1] = SM // TODO: Why hardcoded SM?
 							g.ERTR[SLFINDindex+1] = 0
-							g.SAAT1[SLFINDindex+1] = g.SAAT[SLFINDindex] + 365
-							g.SAAT2[SLFINDindex+1] = g.SAAT[SLFINDindex] + 365
+							lastSowing := g.SAAT[SLFINDindex]
+							if lastSowing == 0 {
+								// automatic sowing: SAAT is only set during the run, take the end of the sowing window
+								lastSowing = g.SAAT2[SLFINDindex]
+							}
+							g.SAAT1[SLFINDindex+1] = lastSowing + 365
+							g.SAAT2[SLFINDindex+1] = lastSowing + 365
 							g.TSLWINDOW[SLFINDindex+1] = 5
 						}
 					}
